@@ -1,6 +1,7 @@
 package internal
 
 import (
+	"bytes"
 	"encoding/xml"
 	"errors"
 	"fmt"
@@ -375,6 +376,10 @@ func (t *Time) UnmarshalText(b []byte) error {
 	tt, err := http.ParseTime(string(b))
 	if err != nil {
 		return err
+	}
+	if i := bytes.LastIndexByte(b, ':'); i >= 0 && i+3 < len(b) && (b[i+3] == '.' || b[i+3] == ',') {
+		// time.Parse accepts a fractional second even if the layout has none
+		return fmt.Errorf("webdav: invalid HTTP date %q: fractional second", b)
 	}
 	*t = Time(tt)
 	return nil
